@@ -260,3 +260,9 @@ func (env *SpecEnv) specPureFuncCall(e *SExpr) (specVal, bool) {
 	}
 	return specVal{rs[0], fn.Signature.Results().At(0).Type()}, true
 }
+
+// pureOnly: a contract that only declares the function pure (no pre/postconditions): nothing to
+// verify deductively; the static obligation pure-funcs checks the declaration.
+func pureOnly(con *Contract) bool {
+	return con.Pure && len(con.Common.Requires) == 0 && len(con.Common.Ensures) == 0 && len(con.Behs) == 0
+}
